@@ -31,14 +31,9 @@ fn ref_b64(d: &[u8; 4], n: usize, out: &mut [u8; 8]) -> usize {
     k
 }
 
-//# kind=bounded tier=thorough props=C14 bound="up to 4 input bytes split into two writes at any point (incl. empty writes)" fns="<Base64Encoder<W> as Write>::write,Base64Encoder::finish" | writing d[..k] then d[k..n] and finishing yields exactly the RFC 4648 text of d[..n], for every split point and all byte values (bounded twin of the Verus proof)
-#[kani::proof]
-#[kani::unwind(10)]
-fn c14_encoder_two_writes_bounded() {
+// writing d[..k] then d[k..n] and finishing yields exactly the RFC 4648 text of d[..n]
+fn two_writes_case(n: usize, k: usize) {
     let d: [u8; 4] = kani::any();
-    let n: usize = kani::any();
-    let k: usize = kani::any();
-    kani::assume(n <= 4 && k <= n);
     let mut enc = Base64Encoder::new(Vec::with_capacity(16));
     let r1 = enc.write(&d[..k]);
     let r2 = enc.write(&d[k..n]);
@@ -54,6 +49,81 @@ fn c14_encoder_two_writes_bounded() {
         }
         Err(_) => assert!(false),
     }
-    kani::cover!(n == 4 && k == 1);
+    kani::cover!(true);
     std::mem::forget(res); std::mem::forget(r1); std::mem::forget(r2);
 }
+
+//# kind=bounded tier=quick props=C14 bound="0 input bytes (all values) written as 0 + 0 bytes" fns="<Base64Encoder<W> as Write>::write,Base64Encoder::finish" | writing d[..0] then d[0..0] and finishing yields exactly the RFC 4648 text of d[..0] (bounded twin of the Verus proof; counterexample provider)
+#[kani::proof]
+#[kani::unwind(10)]
+fn c14_encoder_two_writes_0_0() { two_writes_case(0, 0) }
+
+//# kind=bounded tier=quick props=C14 bound="1 input bytes (all values) written as 0 + 1 bytes" fns="<Base64Encoder<W> as Write>::write,Base64Encoder::finish" | writing d[..0] then d[0..1] and finishing yields exactly the RFC 4648 text of d[..1] (bounded twin of the Verus proof; counterexample provider)
+#[kani::proof]
+#[kani::unwind(10)]
+fn c14_encoder_two_writes_1_0() { two_writes_case(1, 0) }
+
+//# kind=bounded tier=quick props=C14 bound="1 input bytes (all values) written as 1 + 0 bytes" fns="<Base64Encoder<W> as Write>::write,Base64Encoder::finish" | writing d[..1] then d[1..1] and finishing yields exactly the RFC 4648 text of d[..1] (bounded twin of the Verus proof; counterexample provider)
+#[kani::proof]
+#[kani::unwind(10)]
+fn c14_encoder_two_writes_1_1() { two_writes_case(1, 1) }
+
+//# kind=bounded tier=quick props=C14 bound="2 input bytes (all values) written as 0 + 2 bytes" fns="<Base64Encoder<W> as Write>::write,Base64Encoder::finish" | writing d[..0] then d[0..2] and finishing yields exactly the RFC 4648 text of d[..2] (bounded twin of the Verus proof; counterexample provider)
+#[kani::proof]
+#[kani::unwind(10)]
+fn c14_encoder_two_writes_2_0() { two_writes_case(2, 0) }
+
+//# kind=bounded tier=quick props=C14 bound="2 input bytes (all values) written as 1 + 1 bytes" fns="<Base64Encoder<W> as Write>::write,Base64Encoder::finish" | writing d[..1] then d[1..2] and finishing yields exactly the RFC 4648 text of d[..2] (bounded twin of the Verus proof; counterexample provider)
+#[kani::proof]
+#[kani::unwind(10)]
+fn c14_encoder_two_writes_2_1() { two_writes_case(2, 1) }
+
+//# kind=bounded tier=quick props=C14 bound="2 input bytes (all values) written as 2 + 0 bytes" fns="<Base64Encoder<W> as Write>::write,Base64Encoder::finish" | writing d[..2] then d[2..2] and finishing yields exactly the RFC 4648 text of d[..2] (bounded twin of the Verus proof; counterexample provider)
+#[kani::proof]
+#[kani::unwind(10)]
+fn c14_encoder_two_writes_2_2() { two_writes_case(2, 2) }
+
+//# kind=bounded tier=quick props=C14 bound="3 input bytes (all values) written as 0 + 3 bytes" fns="<Base64Encoder<W> as Write>::write,Base64Encoder::finish" | writing d[..0] then d[0..3] and finishing yields exactly the RFC 4648 text of d[..3] (bounded twin of the Verus proof; counterexample provider)
+#[kani::proof]
+#[kani::unwind(10)]
+fn c14_encoder_two_writes_3_0() { two_writes_case(3, 0) }
+
+//# kind=bounded tier=quick props=C14 bound="3 input bytes (all values) written as 1 + 2 bytes" fns="<Base64Encoder<W> as Write>::write,Base64Encoder::finish" | writing d[..1] then d[1..3] and finishing yields exactly the RFC 4648 text of d[..3] (bounded twin of the Verus proof; counterexample provider)
+#[kani::proof]
+#[kani::unwind(10)]
+fn c14_encoder_two_writes_3_1() { two_writes_case(3, 1) }
+
+//# kind=bounded tier=quick props=C14 bound="3 input bytes (all values) written as 2 + 1 bytes" fns="<Base64Encoder<W> as Write>::write,Base64Encoder::finish" | writing d[..2] then d[2..3] and finishing yields exactly the RFC 4648 text of d[..3] (bounded twin of the Verus proof; counterexample provider)
+#[kani::proof]
+#[kani::unwind(10)]
+fn c14_encoder_two_writes_3_2() { two_writes_case(3, 2) }
+
+//# kind=bounded tier=quick props=C14 bound="3 input bytes (all values) written as 3 + 0 bytes" fns="<Base64Encoder<W> as Write>::write,Base64Encoder::finish" | writing d[..3] then d[3..3] and finishing yields exactly the RFC 4648 text of d[..3] (bounded twin of the Verus proof; counterexample provider)
+#[kani::proof]
+#[kani::unwind(10)]
+fn c14_encoder_two_writes_3_3() { two_writes_case(3, 3) }
+
+//# kind=bounded tier=quick props=C14 bound="4 input bytes (all values) written as 0 + 4 bytes" fns="<Base64Encoder<W> as Write>::write,Base64Encoder::finish" | writing d[..0] then d[0..4] and finishing yields exactly the RFC 4648 text of d[..4] (bounded twin of the Verus proof; counterexample provider)
+#[kani::proof]
+#[kani::unwind(10)]
+fn c14_encoder_two_writes_4_0() { two_writes_case(4, 0) }
+
+//# kind=bounded tier=quick props=C14 bound="4 input bytes (all values) written as 1 + 3 bytes" fns="<Base64Encoder<W> as Write>::write,Base64Encoder::finish" | writing d[..1] then d[1..4] and finishing yields exactly the RFC 4648 text of d[..4] (bounded twin of the Verus proof; counterexample provider)
+#[kani::proof]
+#[kani::unwind(10)]
+fn c14_encoder_two_writes_4_1() { two_writes_case(4, 1) }
+
+//# kind=bounded tier=quick props=C14 bound="4 input bytes (all values) written as 2 + 2 bytes" fns="<Base64Encoder<W> as Write>::write,Base64Encoder::finish" | writing d[..2] then d[2..4] and finishing yields exactly the RFC 4648 text of d[..4] (bounded twin of the Verus proof; counterexample provider)
+#[kani::proof]
+#[kani::unwind(10)]
+fn c14_encoder_two_writes_4_2() { two_writes_case(4, 2) }
+
+//# kind=bounded tier=quick props=C14 bound="4 input bytes (all values) written as 3 + 1 bytes" fns="<Base64Encoder<W> as Write>::write,Base64Encoder::finish" | writing d[..3] then d[3..4] and finishing yields exactly the RFC 4648 text of d[..4] (bounded twin of the Verus proof; counterexample provider)
+#[kani::proof]
+#[kani::unwind(10)]
+fn c14_encoder_two_writes_4_3() { two_writes_case(4, 3) }
+
+//# kind=bounded tier=quick props=C14 bound="4 input bytes (all values) written as 4 + 0 bytes" fns="<Base64Encoder<W> as Write>::write,Base64Encoder::finish" | writing d[..4] then d[4..4] and finishing yields exactly the RFC 4648 text of d[..4] (bounded twin of the Verus proof; counterexample provider)
+#[kani::proof]
+#[kani::unwind(10)]
+fn c14_encoder_two_writes_4_4() { two_writes_case(4, 4) }
